@@ -37,6 +37,7 @@ Code details
 ~~~~~~~~~~~~
 """
 import copy
+import re
 from typing import Iterable
 
 import numpy as np
@@ -85,6 +86,29 @@ def numpy_to_blackbird(A, var_name):
     script.append("")
 
     return script
+
+
+def _expression_to_blackbird(expr):
+    """Converts a SymPy expression containing free parameters to Blackbird syntax,
+    by enclosing every parameter name in braces.
+
+    Whole identifiers are replaced in a single pass, so that the result does not
+    depend on the order of the symbols, and a parameter name that is contained in
+    another name (``a`` and ``ab``) or in a function name (``r`` in ``sqrt``) is
+    left alone.
+
+    Args:
+        expr (sympy.Expr): expression containing free parameters
+
+    Returns:
+        str: the expression in Blackbird syntax
+    """
+    names = sorted(str(p) for p in expr.free_symbols)
+    if not names:
+        return str(expr)
+
+    pattern = r"\b(" + "|".join(re.escape(n) for n in names) + r")\b"
+    return re.sub(pattern, r"{\1}", str(expr))
 
 
 def _list_to_blackbird(values):
@@ -436,11 +460,7 @@ class BlackbirdProgram:
 
                     elif isinstance(v, sym.Expr):
                         # argument contains free parameters
-                        res = str(v)
-                        for p in v.free_symbols:
-                            res = res.replace(str(p), "{"+str(p)+"}")
-
-                        args.append(res)
+                        args.append(_expression_to_blackbird(v))
 
                     else:
                         # anything that doesn't need to be dealt with as a special case,
@@ -482,11 +502,7 @@ class BlackbirdProgram:
 
                     elif isinstance(v, sym.Expr):
                         # kwarg contains free parameters
-                        res = str(v)
-                        for p in v.free_symbols:
-                            res = res.replace(str(p), "{"+str(p)+"}")
-
-                        kwargs.append("{}={}".format(k, res))
+                        kwargs.append("{}={}".format(k, _expression_to_blackbird(v)))
 
                     else:
                         kwargs.append("{}={}".format(k, v))
